@@ -236,7 +236,7 @@ func (e *Env) colsOfKind(kind string) []string {
 	var out []string
 	t := e.Ctx.Abs.Tables["D"]
 	for _, cn := range t.ColNames() {
-		if abs.KindOf(t.Cols[cn]) == kind {
+		if abs.KindOf(t.Cols[cn]) == kind && cn != "mark" {
 			out = append(out, cn)
 		}
 	}
@@ -282,7 +282,7 @@ func (e *Env) Run(c Case, emit func(map[string]interface{}) error) error {
 		for _, ord := range orders {
 			ev := map[string]interface{}{"ev": "diff", "kind": c.Kind, "col": cn, "a": c.A, "b": c.B,
 				"oa": ord[0], "ob": ord[1], "hasModify": false, "modify": c.A, "applied": c.A, "aAfter": c.A,
-				"a2After": c.A, "err": "", "rewritten": false}
+				"a2After": c.A, "err": "", "rewritten": false, "newVal": c.A}
 			fail := func(format string, args ...interface{}) error {
 				ev["err"] = fmt.Sprintf(format, args...)
 				return emit(ev)
@@ -294,7 +294,9 @@ func (e *Env) Run(c Case, emit func(map[string]interface{}) error) error {
 				return err
 			}
 			snapA := snapshot(mA, cn)
-			rowB, err := e.Ctx.AbsToOvsRow("D", map[string]interface{}{cn: tb})
+			// the update also changes another column: the column under test is then
+			// part of a recorded update even when its own value stays the same
+			rowB, err := e.Ctx.AbsToOvsRow("D", map[string]interface{}{cn: tb, "mark": "changed"})
 			if err != nil {
 				return err
 			}
@@ -319,6 +321,19 @@ func (e *Env) Run(c Case, emit func(map[string]interface{}) error) error {
 				return err
 			}
 			ev["rewritten"] = snapshot(mA, cn) != snapA
+			// the new model recorded by the update holds b
+			if nm := mu.GetModel("D", e.Ctx.Tok.ToReal(u)); nm != nil {
+				nv, err := fieldAbs(e, nm, cn)
+				if err != nil {
+					return err
+				}
+				if ev["newVal"], err = back(col, nv); err != nil {
+					return err
+				}
+			} else {
+				ev["newVal"] = c.B
+				ev["err"] = "the update was not recorded although another column changed"
+			}
 			if modify != nil {
 				if mv, ok := (*modify)[cn]; ok {
 					ev["hasModify"] = true
